@@ -7,6 +7,7 @@ P2: every data set of the bounded model is realised as ints, floats, quarters an
 binary fractions (objects and mappings, None and missing attributes), rendered by the real dtml-in,
 normalised to thousandths of a unit, and validated by TLC (ObsStats) against the clauses.
 """
+import fractions
 import itertools
 import json
 import random
@@ -31,7 +32,13 @@ def src_for(rot):
 REAL = [('int', 1, 0), ('float', 1.0, 0.0), ('quarter', 0.25, 0.0), ('fine', 2.0 ** -15, 0.5),
         # mixed lists: halves, where the integral values are ints and the others floats (with and without an offset, so that
         # an int follows a fractional float in sorted order and vice versa)
-        ('mixhalf', 0.5, 0.0), ('mixhalf-off', 0.5, 0.5)]
+        ('mixhalf', 0.5, 0.0), ('mixhalf-off', 0.5, 0.5),
+        # numbers that are not exactly int or float: a subclass of int, booleans among ints, rationals
+        ('intsub', 1, 0), ('boolmix', 1, 0), ('fraction', 0.5, 0.0)]
+
+
+class MyInt(int):
+    pass
 NAMES = {1: 'a', 2: 'b', 3: 'c'}
 
 
@@ -88,6 +95,12 @@ def observe(item):
                     v = x['v'] * u + off
                     if rname == 'int':
                         v = int(x['v'])
+                    elif rname == 'intsub':
+                        v = MyInt(x['v'])
+                    elif rname == 'boolmix':
+                        v = bool(x['v']) if x['v'] in (0, 1) else int(x['v'])
+                    elif rname == 'fraction':
+                        v = fractions.Fraction(x['v'], 2)
                     elif rname.startswith('mix') and v == int(v):
                         v = int(v)
                 else:
@@ -112,6 +125,10 @@ def observe(item):
 
 
 def _num(s):
+    if s in ('True', 'False'):
+        return 1.0 if s == 'True' else 0.0
+    if '/' in s:
+        return float(fractions.Fraction(s))
     return float(s)
 
 
